@@ -1,4 +1,5 @@
 import Carquet.Proofs.CursorBasic
+import Carquet.Proofs.CursorLoad
 /-
 C02, column reader: the abstraction invariant (`Inv`, `pending`) and the refinement of
 `Spec.Cursor` by `Impl.ColumnReader` — one `carquet_read_next_page`, the `read_batch` loop, the
@@ -10,10 +11,10 @@ open Carquet.Impl.ColumnReader
 
 /-! ### valid chunks -/
 
-/-- A decoded page of a valid file: at least one row, one repetition level per row, as many values
-as rows at the maximum definition level, no level above the maximum. -/
+/-- A decoded page of a valid file: one repetition level per row, as many values as rows at the
+maximum definition level, no level above the maximum.  A page may be EMPTY (no rows; F63). -/
 def PageOk (maxDef : Nat) (p : Page α) : Prop :=
-  p.defs ≠ [] ∧ p.reps.length = p.defs.length ∧ p.vals.length = nn maxDef p.defs ∧ ∀ d ∈ p.defs, d ≤ maxDef
+  p.reps.length = p.defs.length ∧ p.vals.length = nn maxDef p.defs ∧ ∀ d ∈ p.defs, d ≤ maxDef
 
 def rowsOfPage (maxDef : Nat) (p : Page α) : List (Row α) := pageRows maxDef p.defs p.reps p.vals
 
@@ -186,15 +187,114 @@ theorem pending_consume (fx : Fixes) (r : Reader α) (n : Nat) (hl : r.pageLoade
   rw [consume_pageLoaded, hl]
   rfl
 
+@[simp] theorem installEmpty_chunk (r : Reader α) : (installEmpty r).chunk = r.chunk := rfl
+@[simp] theorem installEmpty_valuesRemaining (r : Reader α) : (installEmpty r).valuesRemaining = r.valuesRemaining := rfl
+@[simp] theorem installEmpty_currentPage (r : Reader α) : (installEmpty r).currentPage = r.currentPage := rfl
+@[simp] theorem installEmpty_pageLoaded (r : Reader α) : (installEmpty r).pageLoaded = true := rfl
+
+theorem rowsOfPage_empty (maxDef : Nat) (q : Page α) (h : q.defs.length = 0) : rowsOfPage maxDef q = [] := by
+  unfold rowsOfPage
+  rw [List.eq_nil_of_length_eq_zero h, pageRows_nil_defs]
+
+/-- The page-load loop over a valid chunk, started in ANY state that needs a load (also the
+intermediate state after an empty page, whose decoded buffers are stale): when rows are left in the
+pages from the next index on, the loop steps over the empty pages and loads the first page with
+rows; nothing is delivered. -/
+theorem prepareLoop_ok : ∀ (fuel : Nat) (r : Reader α),
+    (∀ p ∈ r.chunk.pages, ∃ q, p = some q ∧ PageOk r.chunk.maxDef q) →
+    needLoad r = true →
+    r.valuesRemaining = (rowsOfPages r.chunk.maxDef (r.chunk.pages.drop (advance r).currentPage)).length →
+    rowsOfPages r.chunk.maxDef (r.chunk.pages.drop (advance r).currentPage) ≠ [] →
+    r.chunk.pages.length - (advance r).currentPage < fuel →
+    ∃ r1, prepareLoop Fixes.all fuel r = (r1, none) ∧ Inv r1 ∧
+      pending r1 = rowsOfPages r.chunk.maxDef (r.chunk.pages.drop (advance r).currentPage) ∧ r1.chunk = r.chunk ∧
+      r1.pageLoaded = true ∧ r1.pageValuesRead < r1.pageNumValues := by
+  intro fuel
+  induction fuel with
+  | zero => intro r _ _ _ _ hf; omega
+  | succ fuel ih =>
+    intro r hpages hn hrem hne hf
+    unfold prepareLoop
+    simp only [hn, if_true]
+    cases hd : r.chunk.pages.drop (advance r).currentPage with
+    | nil => simp [hd, rowsOfPages] at hne
+    | cons x rest =>
+      have hx : x ∈ r.chunk.pages := by
+        have : x ∈ r.chunk.pages.drop (advance r).currentPage := by simp [hd]
+        exact List.mem_of_mem_drop this
+      obtain ⟨q, rfl, hq⟩ := hpages x hx
+      obtain ⟨hget, hrest⟩ := rowsOfPages_cons_of_drop r.chunk.maxDef _ _ q rest hd
+      have hlt : (advance r).currentPage < r.chunk.pages.length := (List.getElem?_eq_some_iff.mp hget).1
+      have hfits : ¬ ((q.defs.length : Int) > (advance r).valuesRemaining) := by
+        have h1 := hrem
+        rw [hd] at h1
+        simp only [rowsOfPages, List.length_append, rowsOfPage] at h1
+        rw [length_pageRows _ _ _ _ (by rw [hq.1]; exact Nat.le_refl _)] at h1
+        rw [advance_valuesRemaining, h1]
+        omega
+      by_cases he : q.defs.length = 0
+      · -- an empty page: stepped over
+        have hload : loadNextPage Fixes.all (advance r) = .ok (installEmpty (advance r)) := by
+          simp only [loadNextPage, advance_chunk, hget, hfits, if_false]
+          simp [Fixes.all, he]
+        simp only [hload]
+        have hf63 : Fixes.all.f63 = true := rfl
+        simp only [hf63, if_true]
+        have hadv : (advance (installEmpty (advance r))).currentPage = (advance r).currentPage + 1 := by
+          rw [advance_of_loaded _ (installEmpty_pageLoaded _)]; rfl
+        have hrows : rowsOfPages r.chunk.maxDef (r.chunk.pages.drop ((advance r).currentPage + 1)) =
+            rowsOfPages r.chunk.maxDef (r.chunk.pages.drop (advance r).currentPage) := by
+          rw [hd, hrest]
+          simp [rowsOfPages, rowsOfPage_empty _ q he]
+        obtain ⟨r1, h1, h2, h3, h4, h5, h6⟩ := ih (installEmpty (advance r))
+          (by simpa using hpages)
+          (by simp [needLoad, installEmpty])
+          (by rw [hadv]; simp only [installEmpty_chunk, installEmpty_valuesRemaining, advance_chunk,
+                advance_valuesRemaining]; rw [hrows]; exact hrem)
+          (by rw [hadv]; simp only [installEmpty_chunk, advance_chunk]; rw [hrows]; exact hne)
+          (by rw [hadv]; simp only [installEmpty_chunk, advance_chunk]; omega)
+        refine ⟨r1, h1, h2, ?_, by rw [h4]; simp, h5, h6⟩
+        rw [h3, hadv]; simp only [installEmpty_chunk, advance_chunk]; rw [hrows, hd]
+      · -- a page with rows: loaded, the loop ends
+        have hload : loadNextPage Fixes.all (advance r) = .ok (installPage Fixes.all (advance r) q) := by
+          simp only [loadNextPage, advance_chunk, hget, hfits, if_false]
+          simp [he]
+        simp only [hload]
+        have hf63 : Fixes.all.f63 = true := rfl
+        simp only [hf63, if_true]
+        have hnl : needLoad (installPage Fixes.all (advance r) q) = false := by
+          simp only [needLoad, installPage_pageLoaded, installPage_pageValuesRead, installPage_pageNumValues]
+          have hge : ¬ (0 ≥ q.defs.length) := by omega
+          simp only [hge, decide_false]; rfl
+        have hfuel : ∃ f, fuel = f + 1 := ⟨fuel - 1, by omega⟩
+        obtain ⟨f, rfl⟩ := hfuel
+        unfold prepareLoop
+        simp only [hnl, Bool.false_eq_true, if_false]
+        have hpend : pending (installPage Fixes.all (advance r) q) =
+            rowsOfPages r.chunk.maxDef (r.chunk.pages.drop (advance r).currentPage) := by
+          rw [hd]
+          simp [pending, curRows, rowsOfPages, rowsOfPage, hrest]
+        refine ⟨_, rfl, ?_, by rw [← hd]; exact hpend, by simp, by simp, ?_⟩
+        · refine ⟨?_, ?_, ?_, ?_, ?_, ?_, ?_, ?_, ?_⟩
+          · simpa using hpages
+          · rw [hpend]; simpa using hrem
+          · intro _; simp
+          · intro _; simp
+          · intro _; simpa using hq.1
+          · intro _; simp
+          · intro _; simpa using hq.2.1
+          · intro _; simpa using hq.2.2
+          · intro _; simp [nn]
+        · simp; omega
+
 /-- `carquet_read_next_page`, first half: over a valid chunk with rows left a page with unread rows
-gets loaded (or already is); nothing is delivered. -/
+gets loaded (or already is) — empty pages on the way are stepped over; nothing is delivered. -/
 theorem preparePage_ok (r : Reader α) (h : Inv r) (hne : pending r ≠ []) :
     ∃ r1, preparePage Fixes.all r = (r1, none) ∧ Inv r1 ∧ pending r1 = pending r ∧ r1.chunk = r.chunk ∧
       r1.pageLoaded = true ∧ r1.pageValuesRead < r1.pageNumValues := by
-  unfold preparePage
+  rw [preparePage_eq_loop Fixes.all r (r.chunk.pages.length + 1) (by omega)]
   by_cases hn : needLoad r = true
-  · simp only [hn, if_true]
-    -- the rows left all lie in pages behind `advance r`
+  · -- the rows left all lie in pages behind `advance r`
     have hp : pending r = rowsOfPages r.chunk.maxDef (r.chunk.pages.drop (advance r).currentPage) := by
       rw [advance_currentPage]
       unfold pending
@@ -209,43 +309,11 @@ theorem preparePage_ok (r : Reader α) (h : Inv r) (hne : pending r ≠ []) :
           rw [this, pageRows_nil_defs]
         simp [this]
       · simp [hl]
-    rw [hp] at hne
-    cases hd : r.chunk.pages.drop (advance r).currentPage with
-    | nil => simp [hd, rowsOfPages] at hne
-    | cons x rest =>
-      have hx : x ∈ r.chunk.pages := by
-        have : x ∈ r.chunk.pages.drop (advance r).currentPage := by simp [hd]
-        exact List.mem_of_mem_drop this
-      obtain ⟨q, rfl, hq⟩ := h.pagesOk x hx
-      obtain ⟨hget, hrest⟩ := rowsOfPages_cons_of_drop r.chunk.maxDef _ _ q rest hd
-      have hfits : ¬ ((q.defs.length : Int) > (advance r).valuesRemaining) := by
-        have h1 := h.rem
-        rw [hp, hd] at h1
-        simp only [rowsOfPages, List.length_append, rowsOfPage] at h1
-        rw [length_pageRows _ _ _ _ (by rw [hq.2.1]; exact Nat.le_refl _)] at h1
-        rw [advance_valuesRemaining, h1]
-        omega
-      have hload : loadNextPage Fixes.all (advance r) = .ok (installPage Fixes.all (advance r) q) := by
-        simp only [loadNextPage, advance_chunk, hget, hfits, if_false]
-      simp only [hload]
-      have hpend : pending (installPage Fixes.all (advance r) q) = pending r := by
-        rw [hp, hd]
-        simp [pending, curRows, rowsOfPages, rowsOfPage, hrest]
-      refine ⟨_, rfl, ?_, hpend, by simp, by simp, ?_⟩
-      · refine ⟨?_, ?_, ?_, ?_, ?_, ?_, ?_, ?_, ?_⟩
-        · simpa using h.pagesOk
-        · rw [hpend]; simpa using h.rem
-        · intro _; simp
-        · intro _; simp
-        · intro _; simpa using hq.2.1
-        · intro _; simp
-        · intro _; simpa using hq.2.2.1
-        · intro _; simpa using hq.2.2.2
-        · intro _; simp [nn]
-      · have : q.defs.length ≠ 0 := by
-          intro h0; exact hq.1 (List.eq_nil_of_length_eq_zero h0)
-        simp; omega
+    obtain ⟨r1, h1, h2, h3, h4, h5, h6⟩ := prepareLoop_ok (r.chunk.pages.length + 1) r h.pagesOk hn
+      (by rw [← hp]; exact h.rem) (by rw [← hp]; exact hne) (by omega)
+    exact ⟨r1, h1, h2, by rw [h3, hp], h4, h5, h6⟩
   · have hn' : needLoad r = false := by simpa using hn
+    unfold prepareLoop
     simp only [hn', Bool.false_eq_true, if_false]
     have hl : r.pageLoaded = true := by
       cases hpl : r.pageLoaded with
